@@ -43,12 +43,46 @@ def main():
         add({"ev": "compare", "r": r, "p": p, "verdict": verdict, "diff": diff,
              "bs_diff": bs_diff[0], "bs_u": bs_u[0]})
 
+    # --- larger dictionaries than the exhaustive bound: many keys, two-digit counts, charges of magnitude >= 3 ---
+    ELS = ["C", "H", "O", "N", "S", "Cl", "Ca", "Br", "P", "Si", "Na", "B"]
+    for _ in range(400 if tier == "quick" else 6000):
+        ks = rng.sample(ELS, rng.randint(2, 8))
+        r = {k: rng.choice([1, 2, 3, 9, 10, 11, 12, 25, 99, 100, 127, 128, 255, 256, 300]) for k in ks if rng.random() < 0.85}
+        mode = rng.random()
+        if mode < 0.3:
+            p = dict(r)
+        elif mode < 0.6:
+            p = {k: max(0, v + rng.choice([-11, -10, -1, 0, 0, 1, 10, 12])) for k, v in r.items()}
+            p = {k: v for k, v in p.items() if v > 0}
+        else:
+            ks2 = rng.sample(ELS, rng.randint(1, 8))
+            p = {k: rng.choice([1, 2, 10, 15, 100, 130, 260]) for k in ks2}
+        q1, q2 = rng.choice([0, 0, 0, 1, -1, 3, -3, 4]), rng.choice([0, 0, 0, 1, -1, 3, -3, 4])
+        if rng.random() < 0.5:
+            q2 = q1
+        if q1:
+            r["Q"] = q1
+        if q2:
+            p["Q"] = q2
+        # random key order (the functions must not depend on it)
+        r = dict(sorted(r.items(), key=lambda kv: rng.random()))
+        p = dict(sorted(p.items(), key=lambda kv: rng.random()))
+        verdict = RSMIComparator.compare_dicts(dict(r), dict(p))
+        diff = RSMIComparator.diff_dicts(dict(r), dict(p))
+        bs = BothSideReact([dict(r)], [dict(p)], [verdict], [dict(diff)])
+        bs_diff, bs_u = bs.fit(n_jobs=1)
+        add({"ev": "compare", "r": r, "p": p, "verdict": verdict, "diff": diff, "bs_diff": bs_diff[0], "bs_u": bs_u[0]})
+
     # --- code -> spec: decompose on corpus molecules and the periodic table --
     nmol = 1500 if tier == "quick" else 20000
     mols = corpus.molecules(limit=nmol, rng=rng) + corpus.element_forms()
     extra = ["[H][H]", "[2H]O[2H]", "[NH4+].[Cl-]", "C[N+](C)(C)CC(=O)[O-]", "[Na+].[OH-]", "O=[U+2]=O",
              "[Th]", "[U]", "[Pu](F)(F)(F)F", "[13CH4]", "[H+]", "[H-]", "c1ccccc1", "C1=CC=CC=C1",
-             "[Fe+3].[Cl-].[Cl-].[Cl-]", "[O-][N+](=O)c1ccccc1", "CS(C)=O", "[SiH4]", "B(O)(O)c1ccccc1"]
+             "[Fe+3].[Cl-].[Cl-].[Cl-]", "[O-][N+](=O)c1ccccc1", "CS(C)=O", "[SiH4]", "B(O)(O)c1ccccc1",
+             "[Al+3]", "[O-]P(=O)([O-])[O-]", "[Ti+4]", "[N-3]", "[Ca+2].[Ca+2].[Ca+2].[O-]P(=O)([O-])[O-].[O-]P(=O)([O-])[O-]",
+             "ClC(Cl)(Cl)Cl.ClCCl.[Ca+2].[Cl-].[Cl-]", "CCCCCCCCCCCCCCCCCCCCCCCCCCCCCCCCCCCCCCCC", "C" * 130,
+             "OCC(O)C(O)C(O)C(O)C(O)C(O)C(O)C(O)C(O)C(O)CO", "[Na+].[Na+].[Na+].[Na+].[Na+].[O-]P(=O)([O-])OP(=O)([O-])OP(=O)([O-])[O-]",
+             "Clc1c(Cl)c(Cl)c(Cl)c(Cl)c1Cl", "CaCl", "[Ca]Cl", "[Co]C(=O)", "CO.[Co]", "[Cs]C", "CS.[Cs]", "[Sc]C.CS", "[Sn](C)(C)(C)C"]
     mols += extra
     outs = {}
     for s in mols:
@@ -61,7 +95,7 @@ def main():
     # additivity over mixtures of 2..3 components
     keys = list(outs)
     for _ in range(300 if tier == "quick" else 3000):
-        parts = [rng.choice(keys) for _ in range(rng.choice((2, 2, 3)))]
+        parts = [rng.choice(keys) for _ in range(rng.choice((2, 2, 3, 4, 6, 9)))]
         whole = ".".join(parts)
         add({"ev": "additive", "smiles": whole, "parts": [outs[q] for q in parts],
              "whole": RSMIDecomposer.decompose(whole)})
